@@ -694,3 +694,14 @@ def replay(w, rec):
         run_problem(w["prob"], w["method"], w["x0mode"], rec, random.Random(0), seams)
     finally:
         seams.uninstall()
+
+
+# workloads added after the seventh round of seeded changes (DESIGN section 9): part of the rule of this check
+_RULE_ADDENDUM = 'generator families incl. positive weights over a squared / exponential affine image as the whole base objective and a symmetric matrix variable with S.sum() active'
+_info_base = info
+
+
+def info(tier):  # noqa: F811
+    d = _info_base(tier)
+    d["rule"] = d["rule"] + "; " + _RULE_ADDENDUM
+    return d
